@@ -121,6 +121,13 @@ func launchScenario(r *rand.Rand) []dbx.Op {
 	case 8:
 		regs = []string{"reg0", "reg1", "reg2"}
 		counts = []uint64{1 << 63, 1 << 63, uint64(size)}
+	case 9, 10:
+		// a region whose name is the empty string is a region like any other: no NodeHost is in it here, so its quota cannot
+		// be filled (from hosts of other regions least of all)
+		regs[0] = ""
+		if counts[0] == 0 {
+			counts[0] = 1
+		}
 	}
 	if r.Intn(10) != 0 {
 		ops = append(ops, regionsOp(regs, counts, false))
@@ -480,9 +487,12 @@ func main() {
 		if r.Intn(6) != 0 {
 			regs := []string{"reg0", "reg1"}
 			counts := []uint64{uint64(r.Intn(3)), uint64(r.Intn(3))}
-			switch r.Intn(8) {
+			switch r.Intn(9) {
 			case 0, 1, 2:
 				counts = []uint64{1, 2}
+			case 7:
+				regs = []string{"", "reg1"} // a region with the empty name is a region like any other (no NodeHost is in it here)
+				counts = []uint64{1 + uint64(r.Intn(2)), 1}
 			case 3:
 				counts = counts[:1] // count list shorter than region list
 			case 4:
